@@ -18,9 +18,10 @@ ALL = ",".join(f"C{i:02d}" for i in range(1, 20))
 def main():
     ap = argparse.ArgumentParser()
     ap.add_argument("src"); ap.add_argument("id"); ap.add_argument("--props", default=ALL)
+    ap.add_argument("--from-head", action="store_true")
     a = ap.parse_args()
     src = Path(a.src)
-    p = subprocess.run([sys.executable, str(VERIF / "tools" / "seedeval.py"), str(src), "--no-demo", "--props", a.props],
+    p = subprocess.run([sys.executable, str(VERIF / "tools" / "seedeval.py"), str(src), "--no-demo", "--props", a.props] + (["--from-head"] if a.from_head else []),
                        capture_output=True, text=True)
     summ = None
     for l in p.stdout.split("\n"):
